@@ -2,6 +2,7 @@ import Driver.Util
 import NutsModel.C14.Notifier
 import NutsModel.C14.Options
 import NutsModel.C14.Api
+import NutsModel.C14.Receivers
 import NutsModel.Facts.C14
 open Lean Nuts.Drv Nuts.C14 Nuts
 
@@ -221,6 +222,34 @@ def stepList (j : Json) : String :=
   | .err e => "list|err:" ++ e
   | .panic p => "list|panic:" ++ p
 
+/-! receivers (deepening round 2): an error travels as its Unwrap chain, outermost first; absent key = nil error -/
+def parseLayer : String → Option Layer
+  | "msg" => some .msg | "canceled" => some .canceled | "deadline" => some .deadline | "ctx" => some .ctxNotAllowed
+  | "ld:remote" => some (.jsonld .loadingRemoteContextFailed) | "ld:doc" => some (.jsonld .loadingDocumentFailed)
+  | "ld:other" => some (.jsonld .other) | "db" => some .db | "fatal" => some .fatal | _ => none
+
+def showLayer : Layer → String
+  | .msg => "msg" | .canceled => "canceled" | .deadline => "deadline" | .ctxNotAllowed => "ctx"
+  | .jsonld .loadingRemoteContextFailed => "ld:remote" | .jsonld .loadingDocumentFailed => "ld:doc" | .jsonld .other => "ld:other"
+  | .db => "db" | .fatal => "fatal"
+
+def jErr (j : Json) (k : String) : Option Err :=
+  if jHas j k then some ((jStrs j k).filterMap parseLayer) else none
+
+def showRecv (r : RecvRes) : String :=
+  let e := match r.err with | some e => String.intercalate ">" (e.map showLayer) | none => "-"
+  s!"recv|done={r.done}|err={e}|class={showOutcome (classify r)}"
+
+def stepRecv (j : Json) : String :=
+  match jStr j "op" with
+  | "rvcr" => showRecv (vcrHandle (jErr j "cb"))
+  | "rvdr" => showRecv (vdrHandle (jErr j "cb"))
+  | "rpriv" =>
+    let sends := (jArr j "sends").map fun p => (jBool p "conn", jBool p "fail")
+    showRecv (privateRetry (jErr j "perr") (jBool j "present") (jErr j "derr") (jBool j "palNil") sends)
+  | "rnats" => showRecv (natsEmit (jErr j "a") (jErr j "m") (jErr j "p"))
+  | o => "bad-op:" ++ o
+
 def privateSub : Nat := 1
 
 def step (d : DSt) (j : Json) : DSt × List String :=
@@ -250,6 +279,10 @@ def step (d : DSt) (j : Json) : DSt × List String :=
   | "o14np" => (d, [stepNP j])
   | "o14clean" => (d, [stepClean j])
   | "o14list" => (d, [stepList j])
+  | "rvcr" => (d, [stepRecv j])
+  | "rvdr" => (d, [stepRecv j])
+  | "rpriv" => (d, [stepRecv j])
+  | "rnats" => (d, [stepRecv j])
   | op =>
     match d.cfg with
     | none => (d, ["bad-op:no-config"])
